@@ -11,7 +11,7 @@ ENGINE = 'grid'
 TECHNIQUE = ('bounded exhaustive evaluation of a generated problem grid (polynomial / trigonometric polynomial x interval x degree N x precision history) on the real '
              'chebyfit / fourier / fourierval code; fitted polynomials compared with the generating polynomial in exact rational arithmetic at sample points; every '
              'precision sequence of a small set replayed in one process (node/coefficient state shared between calls)')
-RULE = ('chebyfit(q, [a,b], N) for integer polynomials q of every degree d < N, N in 1..10 and 16, intervals {[-1,1],[0,1],[0,2],[-3,5],[2,3],[1/2,5/2]}: at 33 sample points '
+RULE = ('chebyfit(q, [a,b], N) for integer polynomials q of every degree d < N, N in 1..10 and 16, intervals {[-1,1],[0,1],[0,2],[-3,5],[2,3],[1/2,5/2],[0,3],[-1,2],[0,5]}, endpoints passed as mpf and as plain Python ints/floats: at 33 sample points '
         'of the interval |fit(x) - q(x)| <= 2^(10-p) * sum_k |fit_k| max(|a|,|b|)^k (exact evaluation of the returned coefficients), len = N; the same calls are made in the '
         'precision orders (30,53,100,200), (200,30,100) and (53,53,200) inside one process.  error=True for exp, sin, 1/(1+x^2), sqrt(x+2) with N in {3,6,10,15}: the '
         'reported bound is within a factor 2 of the true maximum error on a 16N-point Chebyshev grid (both directions).  fourier(f, interval, N) for trigonometric '
@@ -22,7 +22,8 @@ RULE = ('chebyfit(q, [a,b], N) for integer polynomials q of every degree d < N, 
 ASSUMPTIONS = ['generic-point reference values use the library cos/sin at 4x precision (C12)']
 BOUNDS = {'quick': 'precision histories up to 200 bits', 'thorough': 'adds a (300, 53, 300) history'}
 
-INTERVALS = [(Fraction(-1), Fraction(1)), (Fraction(0), Fraction(1)), (Fraction(0), Fraction(2)), (Fraction(-3), Fraction(5)), (Fraction(2), Fraction(3)), (Fraction(1, 2), Fraction(5, 2))]
+INTERVALS = [(Fraction(-1), Fraction(1)), (Fraction(0), Fraction(1)), (Fraction(0), Fraction(2)), (Fraction(-3), Fraction(5)), (Fraction(2), Fraction(3)), (Fraction(1, 2), Fraction(5, 2)),
+             (Fraction(0), Fraction(3)), (Fraction(-1), Fraction(2)), (Fraction(0), Fraction(5))]
 
 
 def tasks(tier, seed):
@@ -58,35 +59,42 @@ def t_cheby(task):
                     for qi, q in enumerate(polys(d)):
                         if N == 16 and d not in (0, 7, 15):
                             continue
-                        mp.prec = p
-                        am, bm = mp.mpf(a.numerator) / a.denominator, mp.mpf(b.numerator) / b.denominator
-                        case = ['chebyfit', [str(a), str(b)], N, q, list(hist[:step + 1])]
-                        acc.evals += 1; acc.nontrivial += 1
-                        try:
-                            fit = core.with_timeout(60, mp.chebyfit, lambda x: mp.polyval(q, x), [am, bm], N)
-                        except core.TimeoutHit:
-                            acc.count('timeouts'); continue
-                        except Exception as e:
+                        for ends in ('mpf', 'python'):
                             mp.prec = p
-                            acc.violation(case, 'chebyfit(poly %s, [%s,%s], %d) at prec %d raised %r' % (q, a, b, N, p, e), kind='raise', api='chebyfit'); continue
-                        if mp.prec != p:
-                            acc.violation(case + ['prec'], 'chebyfit left mp.prec = %d' % mp.prec, kind='prec', api='chebyfit'); mp.prec = p
-                        if len(fit) != N:
-                            acc.violation(case, 'chebyfit(.., N=%d) returned %d coefficients' % (N, len(fit)), kind='shape', api='chebyfit'); continue
-                        F = [fq(mp.mpf(c)) for c in fit]
-                        worst = None
-                        R = max(abs(a), abs(b))
-                        for j in range(33):
-                            x = a + (b - a) * Fraction(j, 32)
-                            got = sum(c * x ** (N - 1 - i) for i, c in enumerate(F))
-                            ex = sum(c * x ** (len(q) - 1 - i) for i, c in enumerate(q))
-                            sc = sum(abs(c) * R ** (N - 1 - i) for i, c in enumerate(F)) + abs(ex)
-                            if abs(got - ex) > Fraction(2) ** (10 - p) * sc:
-                                worst = (x, got, ex, sc); break
-                        if worst:
-                            x, got, ex, sc = worst
-                            acc.violation(case, 'chebyfit(poly %s, [%s,%s], N=%d) at prec %d (history %s): fit(%s) = %.17g, polynomial = %.17g, relative error 2^%.1f of the evaluation scale' %
-                                          (q, a, b, N, p, list(hist[:step]), x, float(got), float(ex), __import__('math').log2(float(abs(got - ex) / sc))), kind='accuracy', api='chebyfit', first_call=(step == 0))
+                            am, bm = mp.mpf(a.numerator) / a.denominator, mp.mpf(b.numerator) / b.denominator
+                            if ends == 'python':
+                                # endpoints given as plain Python numbers (ints where possible, else floats): the documented calling convention
+                                if a.denominator & (a.denominator - 1) or b.denominator & (b.denominator - 1) or (qi and N not in (3, 7)):
+                                    continue
+                                am = int(a) if a.denominator == 1 else float(a)
+                                bm = int(b) if b.denominator == 1 else float(b)
+                            case = ['chebyfit', [str(a), str(b)], N, q, list(hist[:step + 1]), ends]
+                            acc.evals += 1; acc.nontrivial += 1
+                            try:
+                                fit = core.with_timeout(60, mp.chebyfit, lambda x: mp.polyval(q, x), [am, bm], N)
+                            except core.TimeoutHit:
+                                acc.count('timeouts'); continue
+                            except Exception as e:
+                                mp.prec = p
+                                acc.violation(case, 'chebyfit(poly %s, [%s,%s], %d) at prec %d raised %r' % (q, a, b, N, p, e), kind='raise', api='chebyfit'); continue
+                            if mp.prec != p:
+                                acc.violation(case + ['prec'], 'chebyfit left mp.prec = %d' % mp.prec, kind='prec', api='chebyfit'); mp.prec = p
+                            if len(fit) != N:
+                                acc.violation(case, 'chebyfit(.., N=%d) returned %d coefficients' % (N, len(fit)), kind='shape', api='chebyfit'); continue
+                            F = [fq(mp.mpf(c)) for c in fit]
+                            worst = None
+                            R = max(abs(a), abs(b))
+                            for j in range(33):
+                                x = a + (b - a) * Fraction(j, 32)
+                                got = sum(c * x ** (N - 1 - i) for i, c in enumerate(F))
+                                ex = sum(c * x ** (len(q) - 1 - i) for i, c in enumerate(q))
+                                sc = sum(abs(c) * R ** (N - 1 - i) for i, c in enumerate(F)) + abs(ex)
+                                if abs(got - ex) > Fraction(2) ** (10 - p) * sc:
+                                    worst = (x, got, ex, sc); break
+                            if worst:
+                                x, got, ex, sc = worst
+                                acc.violation(case, 'chebyfit(poly %s, [%s,%s], N=%d) at prec %d (history %s): fit(%s) = %.17g, polynomial = %.17g, relative error 2^%.1f of the evaluation scale' %
+                                              (q, a, b, N, p, list(hist[:step]), x, float(got), float(ex), __import__('math').log2(float(abs(got - ex) / sc))), kind='accuracy', api='chebyfit', first_call=(step == 0))
         acc.sample(['chebyfit', [str(a), str(b)], 7, [1, -2, 3], list(hist)])
     finally:
         mp.prec = 53
